@@ -1,6 +1,6 @@
-(** extraction entry point for CoreErg: evaluator (and, for C01, the codegen model) on the sx wire format *)
+(** extraction entry point for CoreErg: evaluator, codegen model, VM model, C01 judge/classifiers on the sx wire format *)
 From Coq Require Import ZArith List Bool.
-From ErgV Require Import Common.Sx CoreErg.Syntax CoreErg.Sem.
+From ErgV Require Import Common.Sx CoreErg.Syntax CoreErg.Sem CoreErg.Codegen CoreErg.VM CoreErg.Spec_C01.
 Import ListNotations.
 Open Scope Z_scope.
 
@@ -14,14 +14,102 @@ Definition enc_status (s : status) : sx :=
 Definition enc_outcome (o : outcome) : sx :=
   SL [enc_status (snd o); SL (map sx_of_zs (fst o))].
 
-(** modes:
-    (0 fuel program)   -> (status (line ...))   status 0 = normal exit, 1.. = exception class (Sem.exn_code),
-                                               -998 out of fuel;  (-997) = the program does not decode *)
+(* constants: (0 n) Nat | (1 z) Int | (2 bits) Float | (3 (cp..)) Str | (4 b) Bool | (5) None | (6 k) opaque *)
+Definition enc_const (c : constv) : sx :=
+  match c with
+  | CNat n => SL [SZ 0; SZ n]
+  | CInt z => SL [SZ 1; SZ z]
+  | CFloat b => SL [SZ 2; SZ b]
+  | CStr s => SL [SZ 3; sx_of_zs s]
+  | CBool b => SL [SZ 4; sx_bool b]
+  | CNone => SL [SZ 5]
+  | COpaque k => SL [SZ 6; SZ k]
+  end.
+
+Definition dec_const (x : sx) : constv :=
+  let k := sx_z (sx_nth x 0) in
+  if k =? 0 then CNat (sx_z (sx_nth x 1))
+  else if k =? 1 then CInt (sx_z (sx_nth x 1))
+  else if k =? 2 then CFloat (sx_z (sx_nth x 1))
+  else if k =? 3 then CStr (sx_zs (sx_nth x 1))
+  else if k =? 4 then CBool (sx_to_bool (sx_nth x 1))
+  else if k =? 5 then CNone
+  else COpaque (sx_z (sx_nth x 1)).
+
+Definition wrap_code (w : wrapc) : Z :=
+  match w with WNone => 0 | WNat => 1 | WInt => 2 | WFloat => 3 | WStr => 4 | WBool => 5 | WList => 6 end.
+
+(* names: (0 k) prelude name | (1) print | (2 w) runtime class | (3 x) variable *)
+Definition enc_name (n : name) : sx :=
+  match n with
+  | NPre k => SL [SZ 0; SZ k]
+  | NPrint => SL [SZ 1]
+  | NCls w => SL [SZ 2; SZ (wrap_code w)]
+  | NVar x => SL [SZ 3; SZ x]
+  end.
+
+Definition dec_name (x : sx) : name :=
+  let k := sx_z (sx_nth x 0) in
+  if k =? 1 then NPrint
+  else if k =? 2 then NCls (match dec_wrap (sx_z (sx_nth x 1)) with Some w => w | None => WNone end)
+  else if k =? 3 then NVar (sx_z (sx_nth x 1))
+  else NPre (sx_z (sx_nth x 1)).
+
+Definition dec_pools (cs ns : sx) : pools := mkPools (map dec_const (sx_l cs)) (map dec_name (sx_l ns)).
+
+Definition enc_compiled (r : cres (list cunit * pools)) : sx :=
+  match r with
+  | COk (code, p) =>
+    SL [SZ 0; SL (map (fun u => SL [SZ (opcode_num (fst u)); SZ (snd u)]) code);
+        SL (map enc_const (p_consts p)); SL (map enc_name (p_names p))]
+  | CPanic site => SL [SZ (-1000 - site)]
+  end.
+
+Definition enc_vm_outcome (o : vm_outcome) : sx :=
+  SL [match snd o with Some s => enc_status s | None => SZ (-995) end; SL (map sx_of_zs (fst o))].
+
+(** modes (first element):
+    (0 fuel program)                      -> (status (line ...))   Sem.run: status 0 = normal exit, 1.. = exception class
+                                             (Sem.exn_code), -998 out of fuel
+    (1 pre_consts pre_names program old?) -> (0 ((opcode arg) ...) (const ...) (name ...)) | (-1000-site)  Codegen.compile
+                                             after a prelude with the given pools; old? = 1 selects ValueObj's == pool lookup
+    (2 pre_consts pre_names program)      -> (status (line ...))   VM.exec of the model's code; -995 = stuck
+    (3 program)                           -> (all_in_fragment wraps_ok known_marshal_nat known_nat_cast known_enum_arith)
+    (4 fuel program status (line ...))    -> 0/1                   Spec_C01.judge
+    any mode: (-997) when the program does not decode *)
 Definition run (x : sx) : sx :=
   let mode := sx_z (sx_nth x 0) in
   if mode =? 0 then
     match dec_program (sx_nth x 2) with
     | Some p => enc_outcome (Sem.run_program (sx_to_nat (sx_nth x 1)) p)
+    | None => SL [SZ (-997)]
+    end
+  else if mode =? 1 then
+    match dec_program (sx_nth x 3) with
+    | Some p =>
+      let pre := dec_pools (sx_nth x 1) (sx_nth x 2) in
+      enc_compiled (if sx_z (sx_nth x 4) =? 1 then compile_old pre p else compile pre p)
+    | None => SL [SZ (-997)]
+    end
+  else if mode =? 2 then
+    match dec_program (sx_nth x 3) with
+    | Some p =>
+      match compile (dec_pools (sx_nth x 1) (sx_nth x 2)) p with
+      | COk (code, P) => enc_vm_outcome (VM.exec (p_consts P) (p_names P) code)
+      | CPanic site => SL [SZ (-1000 - site)]
+      end
+    | None => SL [SZ (-997)]
+    end
+  else if mode =? 3 then
+    match dec_program (sx_nth x 1) with
+    | Some p =>
+      SL [sx_bool (forallb (stmt_in_frag) p); sx_bool (prog_wraps_okb [] p);
+          sx_bool (known_marshal_nat p); sx_bool (known_nat_cast p); sx_bool (known_enum_arith p)]
+    | None => SL [SZ (-997)]
+    end
+  else if mode =? 4 then
+    match dec_program (sx_nth x 2) with
+    | Some p => sx_bool (judge (sx_to_nat (sx_nth x 1)) p (map sx_zs (sx_l (sx_nth x 4))) (sx_z (sx_nth x 3)))
     | None => SL [SZ (-997)]
     end
   else SL [SZ (-996)].
